@@ -7,6 +7,8 @@
   over `Sym.SYMS`, the model of the list `SYMMETRIES` (built by the same products).
 -/
 import TakVerif.Lemmas.SymOutcome
+import TakVerif.Lemmas.SymOutcomeSpec
+import TakVerif.Props.C02
 import TakVerif.Lemmas.SymVariants
 
 namespace Tak
@@ -102,10 +104,10 @@ example : Impl.move exPos ⟨1, 1, .right, some [1, 1]⟩ = .error .illegal ∧
     Impl.move exPos ⟨-1, 5, .placeFlat, none⟩ = .error .illegal := ⟨rfl, rfl⟩
 
 /-- Legality, side to move, ply, size, reserves and the outcome of the game are unchanged
-    by each of the eight transformations.  (Outcome: `Sym.outcome`, the declarative
-    adjudication of Lemmas/SymOutcome.lean — roads as chains of adjacent road squares joining
-    opposite edges, double road to the mover, flat count when the board is full or a reserve
-    is empty; `Model/Winner.lean` did not exist when this was proved, see the report.) -/
+    by each of the eight transformations.  (The outcome clause here is over `Sym.outcome`, the
+    declarative adjudication of Lemmas/SymOutcome.lean, written before C02 existed; the
+    clause over the real model `Impl.winner` / `Impl.hasRoad` is `C15_winner_invariant` /
+    `C15_hasRoad_invariant` below.) -/
 theorem C15_invariants {s : Mat3} (hs : s ∈ SYMS) {p : Pos} (hwf : p.WF) :
     (∀ m, Rules.Legal p m ↔ Rules.Legal (transformPos s p) (transformMove s m p.size)) ∧
     (transformPos s p).toMove = p.toMove ∧
@@ -133,6 +135,31 @@ example : exRoad.WF ∧ HasRoad exRoad .white :=
      (.step _ (2, 0) _ ⟨by decide, _, _, rfl, rfl, rfl⟩ (by unfold Adj; decide)
        (.single _ ⟨by decide, _, _, rfl, rfl, rfl⟩)),
    by unfold OppositeEdges; decide⟩
+
+/-- **The outcome clause over the real adjudication model**: `Position.winner()` (the flood
+    fill `Impl.winner` of Model/Winner.lean) gives the same answer on a well-formed position
+    and on each of its eight images.  Proof: `C02_winner_spec` identifies `Impl.winner` with
+    `Spec.outcome`, and `Spec.Road` / `Spec.outcome` are transported along the symmetry
+    (Lemmas/SymOutcomeSpec.lean: chains map to chains, opposite edges to opposite edges). -/
+theorem C15_winner_invariant {s : Mat3} (hs : s ∈ SYMS) {p : Pos} (hwf : p.WF) :
+    Impl.winner (transformPos s p) = Impl.winner p := by
+  rw [C02.C02_winner_spec _ (transformPos_wf hwf), C02.C02_winner_spec _ hwf, spec_outcome_T hs hwf]
+
+/-- the same for the lone road query `Position.has_road()` -/
+theorem C15_hasRoad_invariant {s : Mat3} (hs : s ∈ SYMS) {p : Pos} (hwf : p.WF) :
+    Impl.hasRoad (transformPos s p) = Impl.hasRoad p := by
+  rw [C02.C02_hasRoad_spec _ (transformPos_wf hwf), C02.C02_hasRoad_spec _ hwf, spec_roadAnswer_T hs hwf]
+
+/-- roads of the C02 specification map to roads (both directions), for each colour -/
+theorem C15_road_invariant {s : Mat3} (hs : s ∈ SYMS) {p : Pos} (hwf : p.WF) (c : Color) :
+    Spec.Road (transformPos s p) c ↔ Spec.Road p c :=
+  road_spec_T_iff hs hwf c
+
+/-- non-vacuity: a won position whose image under a quarter turn is a different position
+    with the same (non-trivial) verdict -/
+example : exRoad.WF ∧ rot ∈ SYMS ∧ transformPos rot exRoad ≠ exRoad ∧
+    Impl.winner exRoad = (some .white, some .road) ∧
+    Impl.winner (transformPos rot exRoad) = (some .white, some .road) := by decide
 
 /-- `symmetries(pos)` starts with the position itself (paired with the identity), lists no
     position twice, lists every one of the eight images, and lists nothing else. -/
